@@ -110,6 +110,11 @@ CLAIMED = {
             'every failure both sides are rebuilt from their files and log on again. At the final quiescence every application message must have reached the peer application at least once, '
             'first deliveries must be in send order, re-deliveries must carry PossDupFlag=Y, no Logout may have been sent and both sessions must be established.',
             'Failures between operations only; in-process restarts; sessionwrapper.hpp socket plumbing is not exercised (no TCP).', '4/C21 and 10.7'),
+    'C25': ('E3', 'exploration', 'generated concurrent workloads (Hypothesis) on real threads, ASan/UBSan and ThreadSanitizer builds, with a numbering/exactly-once/stored-copy oracle',
+            '2-8 real threads run generated scripts of send / send_batch / yield against one real session in the threaded, pipelined and coroutine process model (memory and file persister); '
+            'the wire must carry exactly next..next+n-1 in increasing order, every ClOrdID once, every stored copy must equal the wire bytes, every send must be accepted; each workload runs '
+            'in the ASan/UBSan build and about half of them again under ThreadSanitizer (guarded happens-before annotations on the FastFlow queue wrapper, suppressions limited to ff:: frames).',
+            'Thread schedules are sampled by the OS scheduler, not enumerated; ThreadSanitizer covers the interleavings that ran in the happens-before sense only.', '4/C25 and 10.7'),
 }
 
 
@@ -155,12 +160,14 @@ def main():
             'guard': 'FIX8_VERIF',
             'enable': 'all harness builds compile /repo sources with -DFIX8_VERIF (build/Makefile CPPFLAGS)',
             'baseline_off_cmd': 'cd /repo && make -k check',
-            'source_commits': [],
-            'add_only': True,
+            'source_commits': ['caf8e87'],
+            'add_only': False,
         },
         'engines': ENGINES,
         'checks': checks,
-        'notes': 'All checks rebuild their executors from /repo working tree (make -C build, -MMD deps) before running. '
+        'notes': 'Hook caf8e87 (include/fix8/ff_wrapper.hpp): ThreadSanitizer acquire/release annotations around the FastFlow queue wrapper, compiled only with -DFIX8_VERIF and -fsanitize=thread; '
+                 'it turns three one-line wrapper functions into multi-line ones, hence add_only=false (no behaviour changes with the guard off). '
+                 'All checks rebuild their executors from /repo working tree (make -C build, -MMD deps) before running. '
                  'known_findings.json lists repaired defects (fixed:) and open findings; see DESIGN.md.',
         'not_applicable': na,
     }
